@@ -2,70 +2,7 @@
 
 package destination
 
-import (
-	"strings"
-	"time"
 
-	"github.com/grafana/carbon-relay-ng/matcher"
-)
-
-// verifSpoolBuf: size of the spool's real-time input queue (spoolbuf option) of the destinations built below
-var verifSpoolBuf = 4
-
-func verifNewDest(spool bool, connBuf, ioBuf int) *Destination {
-	keepsafe_initial_cap = 4
-	m, _ := matcher.New("", "", "", "", "", "")
-	period := time.Second
-	spoolDir := "/spool"
-	if !verifIsSymbolic() {
-		// natively the flush and reconnect tickers cannot be fired by hand: let them run fast instead
-		period = 20 * time.Millisecond
-		spoolDir = verifTempDir()
-	}
-	d, err := New("route", m, verifEndpointAddr(), spoolDir, spool, false, period, period, connBuf, ioBuf, verifSpoolBuf, 12, 10, time.Hour, time.Millisecond, time.Millisecond)
-	if err != nil {
-		panic(err)
-	}
-	return d
-}
-
-func verifLines(n int) ([][]byte, string) {
-	var ls [][]byte
-	var all []byte
-	for i := 0; i < n; i++ {
-		l := verifBytes("line", 1+verifChoice("len", 2))
-		for _, b := range l {
-			verifAssume(b != '\n')
-		}
-		ls = append(ls, l)
-		all = append(all, l...)
-		all = append(all, '\n')
-	}
-	return ls, string(all)
-}
-
-func verifReconnTicker() int { return verifTickerIdx("destination.go") }
-
-func verifAllLogs() string {
-	var b []byte
-	for k := 0; k < verifNumConns(); k++ {
-		b = append(b, verifEndpointLog(k)...)
-	}
-	return string(b)
-}
-
-// verifFlushConns fires the flush ticker of every connection writer.
-func verifFlushConns() {
-	for i := 0; i < verifNumTickers(); i++ {
-		if strings.Contains(verifTickerName(i), "conn.go") {
-			verifTick(i)
-		}
-	}
-	verifSettle()
-	if !verifIsSymbolic() {
-		time.Sleep(150 * time.Millisecond)
-	}
-}
 
 // VerifC06Steady: hand-off never stalls whatever the endpoint does, and in the steady states every line
 // is received or counted: endpoint absent (no spool) => conn_down_no_spool; healthy => received in order
